@@ -102,7 +102,11 @@ func (kgdb *KVInterfaceGDB) VertexLabelScan(ctx context.Context, label string) c
 		//log.Printf("Searching %s %s", fmt.Sprintf("%s.label", kgdb.graph), label)
 		for i := range kgdb.kvg.idx.GetTermMatch(ctx, fmt.Sprintf("%s.v.label", kgdb.graph), label, 0) {
 			//log.Printf("Found: %s", i)
-			out <- i
+			// the index keeps the entries of deleted and relabelled vertices:
+			// report only vertices that currently carry the label
+			if v := kgdb.GetVertex(i, false); v != nil && v.Label == label {
+				out <- i
+			}
 		}
 	}()
 	return out
